@@ -287,8 +287,22 @@ def check_forces_diff(ctx, rid):
             continue
         try:
             # every loop is unrolled once (max_visits=2) so that writes inside a loop body and after it are both seen
-            paths = explore(f, is_effect=lambda c: _is_emit_mode_setter(c) or _may_set_any_option(c), max_paths=200000,
-                            max_visits=2)
+            # a helper whose whole effect is `emit_mode(Diff)` (`force_diff_emit_mode(config)`) counts as that write
+            diff_helpers = set()
+            for c0 in f.calls():
+                h = p.fns.get(c0.resolved or "")
+                if h is None or h.crate != f.crate or h.kind == "Closure" or not any(_is_emit_mode_setter(d) for d in h.calls()):
+                    continue
+                try:
+                    hp = explore(h, is_effect=lambda c: _is_emit_mode_setter(c) or _may_set_any_option(c), max_paths=2000)
+                except TooManyPaths:
+                    continue
+                rets = [x for x in hp if x.end == "ret"]
+                if rets and all(len([e for e in x.effects if e.kind == "call"]) == 1 and _is_emit_mode_setter(x.effects[-1].call)
+                                and len(x.effects[-1].args) > 1 and vkey(x.effects[-1].args[1]) == "Diff" for x in rets):
+                    diff_helpers.add(h.id)
+            paths = explore(f, is_effect=lambda c: _is_emit_mode_setter(c) or _may_set_any_option(c) or (c.resolved or "") in diff_helpers,
+                            max_paths=200000, max_visits=2)
         except TooManyPaths as e:
             r.undecidable(rid, str(e))
             continue
@@ -309,6 +323,8 @@ def check_forces_diff(ctx, rid):
             # position of the last Diff setter
             last_diff = -1
             for i, e in enumerate(effs):
+                if e.kind == "call" and (e.call.resolved or "") in diff_helpers:
+                    last_diff = i
                 if e.kind == "call" and _is_emit_mode_setter(e.call):
                     a = e.args[1] if len(e.args) > 1 else None
                     if a and vkey(a) == "Diff":
